@@ -16,8 +16,14 @@ for p in props:
     if not os.path.exists(os.path.join(VERIF, "harness", "p%s.py" % pid)) or pid in NA_REASONS:
         na.append(dict(property_id=pid, reason=NA_REASONS.get(pid, "check not built yet (work in progress; planned in DESIGN.md section 4)")))
         continue
-    m = importlib.import_module("p" + pid)
-    meta = m.META
+    try:
+        m = importlib.import_module("p" + pid)
+        meta = m.META
+        assert all(k in meta for k in ("level_text", "level_note")) and os.path.exists(
+            os.path.join(VERIF, "coq", m.PROPERTY_FILES[0]))
+    except Exception as ex:
+        na.append(dict(property_id=pid, reason="check under construction (%s)" % type(ex).__name__))
+        continue
     checks.append(dict(
         property_id=pid,
         quick_cmd="./check %s --tier quick" % pid,
